@@ -16,6 +16,8 @@ LEAF_SHAPES = ["D", "B 1", "B 2", "B 3", "B 4"]
 COMPOSED_SHAPES = [
     "T 1 D", "T 2 D B 2", "T 3 B 3 D B 2", "T 2 P 2 D D", "T 2 T 2 D D B 2",
     "P 1 D", "P 2 D", "P 3 D", "P 2 B 2", "P 2 P 2 D", "P 2 T 2 D B 2", "T 2 P 3 B 3 T 1 D",
+    # blocked components in first / middle position (scalar vs block offsets of the rest differ there)
+    "T 2 B 2 D", "T 3 D B 4 D", "T 2 B 1 B 3", "T 3 B 3 B 2 D", "P 3 B 4", "P 2 T 2 B 2 D",
 ]
 SHAPES = LEAF_SHAPES + COMPOSED_SHAPES
 
@@ -26,6 +28,9 @@ MUT_OPS = {"axpy": "ab", "scale": "ab", "cinv": "ab", "cprod": "abc", "copy": "a
 RED_OPS = {"dot": "ab", "tdot": "abc", "norm2": "a", "norm2sqr": "a", "maxabs": "a", "minabs": "a", "max": "a", "min": "a"}
 BLK_OPS = {"axpyb": "ab", "scaleb": "ab", "dotb": "ab", "tdotb": "abc", "norm2b": "a", "norm2sqrb": "a",
            "maxabsb": "a", "minabsb": "a", "maxb": "a", "minb": "a", "ccopy": "ab", "ccopyto": "ab"}
+# flat <-> composed copies (DenseVector::copy(VT_) / copy_inv(VT_) / convert(VT_)), second class flat where 'F'
+FLAT_OPS = {"flatcopy": "ab", "flatcopyinv": "ab", "flatconvert": "a", "flatrt": "ab", "flatrtinv": "ab"}
+FLAT_SECOND = ("flatcopy", "flatcopyinv", "flatrtinv")
 MINMAX = ("maxabs", "minabs", "max", "min", "maxabsb", "minabsb", "maxb", "minb")
 PATTERNS = {1: ["a"], 2: ["ab", "aa"], 3: ["abc", "aab", "aba", "abb", "aaa"]}
 
@@ -177,6 +182,21 @@ def gen_case(rng, probes=False):
         scal = [gen_scalar(rng) for _ in range(b)] if op in ("axpyb", "scaleb") else []
         datas = [gen_data(rng, pod_len(shape, sizes)) for _ in range(ncls)]
         return "%s %s %d %s %s %s %s" % (op, pat, rng.randint(0, 1), fl(scal), shape, il(sizes), " ".join(fl(d) for d in datas))
+    if k < 0.40:
+        # flat <-> composed copies and round trips on every shape; dense <-> blocked conversion
+        if rng.random() < 0.12:
+            b = rng.choice([1, 2, 3, 4])
+            n = rng.choice([0, 1, 2, 3, 5, 8])
+            return "denseblocked a 0 0 B %d 1 %d %s" % (b, n, fl(gen_data(rng, n * b)))
+        op = rng.choice(list(FLAT_OPS))
+        shape = rng.choice(COMPOSED_SHAPES if rng.random() < 0.85 else LEAF_SHAPES)
+        sizes = gen_sizes(rng, shape, 0)
+        n = pod_len(shape, sizes)
+        pat = FLAT_OPS[op]
+        if op == "flatrt" and rng.random() < 0.2:
+            pat = "aa"
+        datas = [gen_data(rng, n) for _ in range(len(set(pat)))]
+        return "%s %s 0 0 %s %s %s" % (op, pat, shape, il(sizes), " ".join(fl(d) for d in datas))
     ops = dict(MUT_OPS)
     ops.update(RED_OPS)
     op = rng.choice(list(ops))
@@ -559,6 +579,21 @@ def oracle(case, out):
         exp_res = [max(x0)]
     elif op == "min":
         exp_res = [min(x0)]
+    elif op == "flatcopy":
+        expect[pat[1]] = list(x0)                    # flat <- composed
+    elif op == "flatcopyinv":
+        expect[pat[0]] = list(opnd(1))               # composed <- flat
+    elif op == "flatconvert":
+        exp_res = list(x0)
+    elif op == "flatrt":
+        exp_res = list(x0)                           # a -> flat -> b
+        expect[pat[1]] = list(x0)
+    elif op == "flatrtinv":
+        exp_res = list(opnd(1))                      # flat -> a -> flat2
+        expect[pat[0]] = list(opnd(1))
+    elif op == "denseblocked":
+        b = int(p["shape"].split()[1])
+        exp_res = list(x0) * 4 + [Fraction(n), Fraction(n // b)]
     elif op in BLK_OPS:
         b = int(p["shape"].split()[1])
         col = lambda v, j: v[j::b]
@@ -607,6 +642,8 @@ def oracle(case, out):
         if got != expect[ch]:
             k = next((i for i in range(min(len(got), len(expect[ch]))) if got[i] != expect[ch][i]), None)
             role = "result" if ch == pat[0] and op in MUT_OPS or op in ("axpyb", "scaleb", "ccopy") else "operand"
+            if op in FLAT_OPS:
+                role = "copied"
             if op == "ccopyto" and ch == pat[1]:
                 role = "result"
             return "%s vector '%s' differs from the element-wise definition at flat index %s (got %s, expected %s)" % (
@@ -715,8 +752,9 @@ def main(argv):
         cases = corpus + gen_cases(rng, 20000 if args.tier == "quick" else 400000, probes)
     st = vlib.Stream("vector-ops", cases, [binary], vlib.driver_cmd(PROP), oracle=oracle, nontrivial=nontrivial,
                      describe=describe, signature=signature, canon=canon, model_filter=model_filter)
-    stats_rule = ("17 container types (DenseVector, DenseVectorBlocked<1..4>, 12 Tuple/PowerVector nestings up to "
-                  "depth 3), leaf sizes {0,1,2,3,4,5,7,8,9,31,32,33}, every aliasing pattern of 2- and 3-operand "
+    stats_rule = ("23 container types (DenseVector, DenseVectorBlocked<1..4>, 18 Tuple/PowerVector nestings up to "
+                  "depth 3 with blocked components in first, middle and last position); flat<->composed copies "
+                  "(copy/copy_inv/convert and both round trips) and dense<->blocked conversion on every shape, leaf sizes {0,1,2,3,4,5,7,8,9,31,32,33}, every aliasing pattern of 2- and 3-operand "
                   "members realised both as the same object and as shallow clones, values: zeros, ties, signed "
                   "rationals, magnitudes 2^-40..2^40; blocked-only members and component copies; sparse vectors "
                   "through element access; non-trivial = flat size >= 2 and (aliased operands or block size > 1 or "
